@@ -101,3 +101,143 @@ Lemma link_cstr_equiv a b : a < 256 -> b < 256 ->
 Proof.
   intros Ha Hb. rewrite (link_cstr_ilt a b Ha Hb), (link_cstr_ilt b a Hb Ha). rewrite !N.ltb_ge. lia.
 Qed.
+
+(* integer_property_functor: the test that rejects a character *)
+Lemma link_int_reject b : b < 256 -> g_xss_int_reject (sch b) = negb (is_digit b).
+Proof.
+  intros H. apply eqb_prop.
+  apply (sweep256 (fun b => eqb (g_xss_int_reject (sch b)) (negb (is_digit b)))); [vm_compute; reflexivity|exact H].
+Qed.
+
+(* ---- class uri_parser, the parts written as alternatives of calls (checks/C04.py:gen_extra (6), (7)) ---- *)
+From Coq Require Import String.
+Lemma link_uri_schemech b : b < 256 -> g_uri_schemech (sch b) = schemech b.
+Proof.
+  intros H. apply Bool.eqb_prop.
+  apply (sweep256 (fun b => Bool.eqb (g_uri_schemech (sch b)) (schemech b))); [vm_compute; reflexivity|exact H].
+Qed.
+
+(* the operands of g_uri_grammar read as the token matchers of the model *)
+Definition tok_of (a : string) : list N -> nat :=
+  if String.eqb a "unreserved()" then unreserved_len else
+  if String.eqb a "pct_encoded()" then pct_len else
+  if String.eqb a "sub_delims()" then subdelim_len else
+  if String.eqb a "pchar()" then pchar_len else
+  if String.eqb a "follows(58)" then char_len 58 else
+  if String.eqb a "follows(64)" then char_len 64 else
+  if String.eqb a "follows(47)" then char_len 47 else
+  if String.eqb a "follows(63)" then char_len 63 else fun _ => 0%nat.
+Fixpoint alts (l : list string) (s : list N) : nat :=
+  match l with [] => 0%nat | a :: r => orl (tok_of a s) (alts r s) end.
+Definition rule (name : string) : list string :=
+  match find (fun p => String.eqb (fst p) name) g_uri_grammar with Some p => snd p | None => [] end.
+
+Lemma orl_assoc a b c : orl (orl a b) c = orl a (orl b c).
+Proof. destruct a; reflexivity. Qed.
+Lemma orl_0_r a : orl a 0 = a.
+Proof. destruct a; reflexivity. Qed.
+
+Lemma tok_of_names :
+  tok_of "unreserved()" = unreserved_len /\ tok_of "pct_encoded()" = pct_len /\ tok_of "sub_delims()" = subdelim_len /\
+  tok_of "pchar()" = pchar_len /\ tok_of "follows(58)" = char_len 58 /\ tok_of "follows(64)" = char_len 64 /\
+  tok_of "follows(47)" = char_len 47 /\ tok_of "follows(63)" = char_len 63.
+Proof. repeat split; reflexivity. Qed.
+
+Ltac alts_solve :=
+  destruct tok_of_names as (T1 & T2 & T3 & T4 & T5 & T6 & T7 & T8);
+  cbn [alts]; rewrite ?T1, ?T2, ?T3, ?T4, ?T5, ?T6, ?T7, ?T8;
+  unfold qchar_len, pchar_len, nc_len, ui_len, reg_len; rewrite ?orl_assoc, ?orl_0_r; reflexivity.
+
+(* pchar(): unreserved() || pct_encoded() || sub_delims() || follows(':') || follows('@') *)
+Lemma link_uri_pchar s : rule "pchar" = "||"%string :: tl (rule "pchar") /\ alts (tl (rule "pchar")) s = pchar_len s.
+Proof.
+  assert (E : rule "pchar" = ["||"; "unreserved()"; "pct_encoded()"; "sub_delims()"; "follows(58)"; "follows(64)"]%string)
+    by (vm_compute; reflexivity).
+  rewrite E. split; [reflexivity|]. cbn [tl]. alts_solve.
+Qed.
+(* query(): while(pchar() || follows('/') || follows('?')) *)
+Lemma link_uri_query s : rule "query" = "||"%string :: tl (rule "query") /\ alts (tl (rule "query")) s = qchar_len s.
+Proof.
+  assert (E : rule "query" = ["||"; "pchar()"; "follows(47)"; "follows(63)"]%string) by (vm_compute; reflexivity).
+  rewrite E. split; [reflexivity|]. cbn [tl]. alts_solve.
+Qed.
+(* segment(): while(pchar()) *)
+Lemma link_uri_segment s : rule "segment" = "-"%string :: tl (rule "segment") /\ alts (tl (rule "segment")) s = pchar_len s.
+Proof.
+  assert (E : rule "segment" = ["-"; "pchar()"]%string) by (vm_compute; reflexivity).
+  rewrite E. split; [reflexivity|]. cbn [tl]. alts_solve.
+Qed.
+(* segment_nz_nc(): while(unreserved() || pct_encoded() || sub_delims() || follows('@')) *)
+Lemma link_uri_segment_nz_nc s :
+  rule "segment_nz_nc" = "||"%string :: tl (rule "segment_nz_nc") /\ alts (tl (rule "segment_nz_nc")) s = nc_len s.
+Proof.
+  assert (E : rule "segment_nz_nc" = ["||"; "unreserved()"; "pct_encoded()"; "sub_delims()"; "follows(64)"]%string)
+    by (vm_compute; reflexivity).
+  rewrite E. split; [reflexivity|]. cbn [tl]. alts_solve.
+Qed.
+(* reg_name(): while(unreserved() || pct_encoded() || sub_delims()) *)
+Lemma link_uri_reg_name s : rule "reg_name" = "||"%string :: tl (rule "reg_name") /\ alts (tl (rule "reg_name")) s = reg_len s.
+Proof.
+  assert (E : rule "reg_name" = ["||"; "unreserved()"; "pct_encoded()"; "sub_delims()"]%string) by (vm_compute; reflexivity).
+  rewrite E. split; [reflexivity|]. cbn [tl]. alts_solve.
+Qed.
+(* userinfo(): while(unreserved() || pct_encoded() || sub_delims() || follows(':')) *)
+Lemma link_uri_userinfo s : rule "userinfo" = "||"%string :: tl (rule "userinfo") /\ alts (tl (rule "userinfo")) s = ui_len s.
+Proof.
+  assert (E : rule "userinfo" = ["||"; "unreserved()"; "pct_encoded()"; "sub_delims()"; "follows(58)"]%string)
+    by (vm_compute; reflexivity).
+  rewrite E. split; [reflexivity|]. cbn [tl]. alts_solve.
+Qed.
+(* the entry points and two one-line methods, as written:
+     parse()          uri_reference() && begin_ == end_     DefsU.parse_uri (ok = everything consumed)
+     parse_relative() relative_ref() && begin_ == end_      (not used by uri_validator_functor)
+     parse_full()     uri() && begin_ == end_               DefsU.parse_full: uri s = Some []
+     host()           ipv4addr() || reg_name()              DefsU.host
+     fragment()       query()                               DefsU.opt_fragment uses query *)
+Definition uri_entry_points_as_modelled : Prop :=
+  rule "parse" = ["&&"; "uri_reference()"; "begin_==end_"]%string /\
+  rule "parse_relative" = ["&&"; "relative_ref()"; "begin_==end_"]%string /\
+  rule "parse_full" = ["&&"; "uri()"; "begin_==end_"]%string /\
+  rule "host" = ["||"; "ipv4addr()"; "reg_name()"]%string /\
+  rule "fragment" = ["-"; "query()"]%string.
+Lemma link_uri_entry_points : uri_entry_points_as_modelled.
+Proof. vm_compute. repeat split. Qed.
+
+(* names for the operand lists, so that statements about them need no string literals *)
+Definition alts_pchar := alts (tl (rule "pchar")).
+Definition alts_query := alts (tl (rule "query")).
+Definition alts_segment := alts (tl (rule "segment")).
+Definition alts_segment_nz_nc := alts (tl (rule "segment_nz_nc")).
+Definition alts_reg_name := alts (tl (rule "reg_name")).
+Definition alts_userinfo := alts (tl (rule "userinfo")).
+Lemma link_uri_alternatives s :
+  alts_pchar s = pchar_len s /\ alts_query s = qchar_len s /\ alts_segment s = pchar_len s /\
+  alts_segment_nz_nc s = nc_len s /\ alts_reg_name s = reg_len s /\ alts_userinfo s = ui_len s.
+Proof.
+  exact (conj (proj2 (link_uri_pchar s)) (conj (proj2 (link_uri_query s)) (conj (proj2 (link_uri_segment s))
+          (conj (proj2 (link_uri_segment_nz_nc s)) (conj (proj2 (link_uri_reg_name s)) (proj2 (link_uri_userinfo s))))))).
+Qed.
+
+(* the control skeleton of the composite rules (conditions of the if / while statements and operands of the return statements in
+   source order), as the model assumes it:
+     uri            scheme ":" hier-part, then optional "?" query, optional "#" fragment          DefsU.uri
+     relative_ref   relative-part, then the same two options                                     DefsU.relative_ref
+     relative_part  authority() && path_abempty() tried first WITHOUT looking for "//" (authority never fails, so the
+                    alternatives path_absolute / path_noscheme are dead code)                     DefsU.relative_ref
+     hier_part      "//" authority path-abempty | path-absolute | path-rootless | empty           DefsU.hier_part
+     authority      userinfo "@" host | host, then optional ":" port                             DefsU.authority
+     path_*         DefsU.path_absolute, path_rootless, path_noscheme, path_abempty (slash_segs), segment_nz *)
+Definition uri_control_as_modelled : Prop :=
+  g_uri_control =
+  ([("uri", [["if"; "||"; "!scheme()"; "!follows(58)"; "!hier_part()"]; ["return"; "-"; "false"]; ["if"; "&&"; "follows(63)"; "query()"]; ["if"; "&&"; "follows(35)"; "fragment()"]; ["return"; "-"; "true"]]);
+   ("relative_ref", [["if"; "-"; "!relative_part()"]; ["return"; "-"; "false"]; ["if"; "&&"; "follows(63)"; "query()"]; ["if"; "&&"; "follows(35)"; "fragment()"]; ["return"; "-"; "true"]]);
+   ("relative_part", [["if"; "&&"; "authority()"; "path_abempty()"]; ["return"; "-"; "true"]; ["return"; "||"; "path_absolute()"; "path_noscheme()"; "true"]]);
+   ("hier_part", [["if"; "-"; "follows(s47.47)"]; ["if"; "||"; "!authority()"; "!path_abempty()"]; ["return"; "-"; "false"]; ["return"; "-"; "true"]; ["return"; "||"; "path_absolute()"; "path_rootless()"; "true"]]);
+   ("authority", [["if"; "&&"; "userinfo()"; "follows(64)"; "host()"]; ["if"; "-"; "host()"]; ["return"; "-"; "false"]; ["if"; "&&"; "follows(58)"; "port()"]; ["return"; "-"; "true"]; ["return"; "-"; "true"]]);
+   ("path_absolute", [["if"; "-"; "!follows(47)"]; ["return"; "-"; "false"]; ["if"; "-"; "segment_nz()"]; ["while"; "&&"; "follows(47)"; "segment()"]; ["return"; "-"; "true"]]);
+   ("path_rootless", [["if"; "-"; "!segment_nz()"]; ["return"; "-"; "false"]; ["while"; "&&"; "follows(47)"; "segment()"]; ["return"; "-"; "true"]]);
+   ("path_noscheme", [["if"; "-"; "!segment_nz_nc()"]; ["return"; "-"; "false"]; ["while"; "&&"; "follows(47)"; "segment()"]; ["return"; "-"; "true"]]);
+   ("path_abempty", [["while"; "&&"; "follows(47)"; "segment()"]; ["return"; "-"; "true"]]);
+   ("segment_nz", [["if"; "-"; "!pchar()"]; ["return"; "-"; "false"]; ["while"; "-"; "pchar()"]; ["return"; "-"; "true"]])])%string.
+Lemma link_uri_control : uri_control_as_modelled.
+Proof. vm_compute. reflexivity. Qed.
